@@ -113,6 +113,49 @@ func ctxErrOf(err error) error {
 	return err
 }
 
+// busySenderScenario: node 2's sender is stuck writing an earlier message (its server does not read), so the
+// quorum call's request for node 2 cannot even be handed over. Node 1 answers, and the quorum function is
+// satisfied by one reply: the call must return success without waiting for node 2's sender.
+func busySenderScenario(kind string, buf uint) func() {
+	return func() {
+		w := world.New(world.Opts{N: 2, Window: 1, SendBuffer: buf})
+		if w.Cfg == nil {
+			return
+		}
+		blockers := map[int]bool{}
+		w.Handle = func(h *world.HCtx) world.Reply {
+			if blockers[h.Tok] {
+				world.Block()
+			}
+			return world.Reply{}
+		}
+		for i := 0; i < 3+int(buf); i++ {
+			x := w.NewCall("Unicast")
+			x.Node, x.NoSendWaiting = 2, true
+			x.Ctx = context.Background()
+			blockers[x.Tok] = true
+			w.Start(x)
+			mc.Quiesce()
+		}
+		c := w.NewCall(kind)
+		c.Ctx = context.Background()
+		c.Verdict = func(inv *world.QFInv) { inv.Quorum = len(inv.Keys) >= 1 }
+		w.Start(c)
+		mc.Quiesce()
+		name := fmt.Sprintf("qc/%s/busy-sender-on-node-2/buf=%d", kind, buf)
+		done := c.Returned
+		if world.IsAsync(kind) {
+			done = c.Returned && c.Fut.Done()
+		}
+		if w.Entered(1, c.Tok) == 1 && !done {
+			fail("C02/return-iff", classOf(kind)+"/busy-sender", "%s: node 1 has answered and one reply satisfies the quorum function, but the call has not returned: it is still handing its request to node 2, whose sender is busy (quorum function invoked %d times)", name, len(c.QF))
+			mc.Outcome("waiting")
+			return
+		}
+		mc.Outcome("returned")
+	}
+}
+
 func handlerError(node int) error {
 	return status.Error(codes.NotFound, fmt.Sprintf("boom%d", node))
 }
@@ -510,6 +553,11 @@ func init() {
 	register(&Check{ID: "C02", Rule: rule + "; plus the connection-fault instances of C07 for one failing node of two (crash, reset, crash+restart struck by an adversary thread, also while the request is still queued), where an Incomplete result must account for exactly the nodes that failed - never while a targeted node is still silent and the context alive",
 		Gen: func(tier string) []Instance {
 			out := qcInstances(tier)
+			for _, kind := range []string{"QuorumCall", "QuorumCallAsync"} {
+				for _, buf := range []uint{0, 1} {
+					out = append(out, Instance{Name: fmt.Sprintf("qc/%s/busy-sender-on-node-2/buf=%d", kind, buf), Bound: 1, Root: busySenderScenario(kind, buf)})
+				}
+			}
 			for _, in := range faultInstances(tier) {
 				if strings.Contains(in.Name, "/n=2/failing=[2]/") && !strings.Contains(in.Name, "/err-") && !strings.Contains(in.Name, "/down/") && strings.Contains(in.Name, "thr=healthy+1") {
 					in.Name = "with-faults/" + in.Name
